@@ -634,15 +634,13 @@ func guardsOf(sy *core.Symbolizer, fn *ssa.Function, in ssa.Instruction) string 
 
 func (e *Env) c05Reconnect(rule string) {
 	r := e.R
-	p := e.P
-	fn := p.DeclaredMethod("scipipe", "Workflow", "reconnectDeadEndConnections")
-	if fn == nil {
-		r.Ob(rule, "reconnectDeadEndConnections", "dangling out-ports are wired to the sink").Unknown("-", "function not found")
+	g := e.runRoot()
+	if g == nil {
+		r.Ob(rule, "reconnectDeadEndConnections", "dangling out-ports are wired to the sink").Unknown("-", "(*Workflow).Run not found")
 		return
 	}
-	g := e.XG(fn)
-	if g == nil {
-		return
+	isPortReady := func(m *core.Node) bool {
+		return m.Kind == core.KCall && m.Callee != nil && (core.FuncName(m.Callee) == "(*OutPort).Ready" || core.FuncName(m.Callee) == "(*OutParamPort).Ready")
 	}
 	for _, k := range []struct{ kind, readyFn, sinkFn, ports string }{
 		{"OutPorts", "(*OutPort).Ready", "(*Sink).From", "OutPorts"},
@@ -650,20 +648,23 @@ func (e *Env) c05Reconnect(rule string) {
 	} {
 		ob := r.Ob(rule, "reconnectDeadEndConnections#"+k.kind, "every "+k.kind[:len(k.kind)-1]+" of every process of the run set that is left without a consumer is connected to the sink")
 		isSinkFrom := func(n *core.Node) bool {
-			return n.Ctx == g.Root && n.Callee != nil && core.FuncName(n.Callee) == k.sinkFn && n.Kind != core.KAfter
+			return n.Callee != nil && core.FuncName(n.Callee) == k.sinkFn && n.Kind != core.KAfter
 		}
 		var readys []*core.Node
 		for _, n := range g.Nodes {
-			if n.Ctx == g.Root && n.Callee != nil && core.FuncName(n.Callee) == k.readyFn && n.Kind == core.KCall {
-				readys = append(readys, n)
+			if n.Callee != nil && core.FuncName(n.Callee) == k.readyFn && n.Kind == core.KCall {
+				// only the tests made while rewiring: on an element of a process's port map, followed by a possible sink connection
+				s := e.xargSym(n, 0).String()
+				if strings.Contains(s, "val∈") && strings.Contains(s, k.ports) && g.ReachableFrom(n, nil)[firstMatch(g, isSinkFrom)] {
+					readys = append(readys, n)
+				}
 			}
 		}
 		if len(readys) == 0 {
-			ob.Fail(core.FuncName(fn), "no readiness test of the "+k.kind+" of the run set: a port nobody consumes is never wired to the sink and its process blocks forever")
+			ob.Fail("(*Workflow).Run", "no readiness test of the "+k.kind+" of the run set that can lead to a sink connection: a port nobody consumes is never wired to the sink and its process blocks forever")
 			continue
 		}
 		for _, rn := range readys {
-			// the field load inside Ready's body
 			var load *core.Node
 			for _, m := range g.Nodes {
 				if m.Ctx == rn.Inl {
@@ -677,51 +678,65 @@ func (e *Env) c05Reconnect(rule string) {
 				continue
 			}
 			res := g.Run(core.Scenario{Start: load, Result: core.BoolAV(false)})
-			// before the next port is examined (= the next readiness test) the port must be wired to the sink
-			next := func(m *core.Node) bool {
-				return m.Kind == core.KRootRet || (m.Kind == core.KCall && m.Ctx == g.Root && m.Callee != nil && (core.FuncName(m.Callee) == "(*OutPort).Ready" || core.FuncName(m.Callee) == "(*OutParamPort).Ready"))
-			}
+			next := func(m *core.Node) bool { return m.Kind == core.KRootRet || (isPortReady(m) && m != rn) || m.IsGo }
 			if w := res.ReachesAvoiding(next, isSinkFrom); w != nil {
-				ob.Fail(g.Where(rn), "an unconnected port can be left unconnected (no "+k.sinkFn+" before the next port is examined)")
+				ob.Fail(g.Where(rn), "an unconnected port can be left unconnected (no "+k.sinkFn+" before the next port is examined / the processes are started)")
 				continue
 			}
-			// the readiness test must be made for every port of every process: enclosing loops complete
 			okLoops := true
-			for _, l := range core.LoopsOf(rn.Instr) {
-				if ex := p.EarlyExits(l); len(ex) > 0 {
+			for _, la := range iterLoops(g, rn) {
+				if !e.loopHarmlessExits(g, la) {
 					okLoops = false
-					ob.Fail(g.Where(rn), "a loop around the readiness test can be left early: "+ex[0])
+					ob.Fail(g.Where(rn), "a loop around the readiness test can be left early")
 				}
 			}
-			s := e.argSym(rn, 0).String()
-			if okLoops && strings.Contains(s, "val∈") && strings.Contains(s, k.ports) {
-				ob.OK(g.Where(rn), "not ready ⇒ "+k.sinkFn+"("+s+")")
-			} else if okLoops {
-				ob.Fail(g.Where(rn), "the readiness test is not made on every element of "+k.ports+"(): "+s)
+			if okLoops {
+				ob.OK(g.Where(rn), "not ready ⇒ "+k.sinkFn+"("+trunc(e.xargSym(rn, 0).String(), 80)+")")
 			}
 		}
-		// cutting: the disconnect loop over RemotePorts examines every connection
 		obc := r.Ob(rule, "reconnectDeadEndConnections:cut#"+k.kind, "every connection of the port is examined: the loop over RemotePorts that disconnects consumers outside the run set is not left early")
 		nDis := 0
 		for _, n := range g.Nodes {
-			if n.Ctx == g.Root && n.Callee != nil && n.Callee.Name() == "Disconnect" && n.Kind != core.KAfter && strings.Contains(core.FuncName(n.Callee), k.kind[:len(k.kind)-1]+")") {
-				nDis++
-				l := core.InnermostLoop(n.Instr)
-				if l == nil {
-					obc.Fail(g.Where(n), "Disconnect is not inside a loop over the port's connections")
-					continue
-				}
-				if ex := p.EarlyExits(l); len(ex) > 0 {
-					obc.Fail(g.Where(n), "the loop over the connections can be left before all of them were examined: "+ex[0]+" (a connection to a process outside the run set survives; its producer blocks once the buffer is full)")
-				} else {
-					obc.OK(g.Where(n), "complete range over RemotePorts")
-				}
+			if n.Callee == nil || n.Callee.Name() != "Disconnect" || n.Kind == core.KAfter || !strings.Contains(core.FuncName(n.Callee), k.kind[:len(k.kind)-1]+")") {
+				continue
+			}
+			nDis++
+			la, ok := e.loopOver(g, n, "RemotePorts")
+			if !ok {
+				obc.Fail(g.Where(n), "Disconnect is not inside a loop over the port's connections")
+				continue
+			}
+			if !e.loopHarmlessExits(g, la) {
+				obc.Fail(g.Where(n), "the loop over the connections can be left before all of them were examined (a connection to a process outside the run set survives; its producer blocks once the buffer is full)")
+			} else {
+				obc.OK(g.Where(n), "complete range over RemotePorts")
 			}
 		}
 		if nDis == 0 {
-			obc.Fail(core.FuncName(fn), "connections to processes outside the run set are never cut for "+k.kind)
+			obc.Fail("(*Workflow).Run", "connections to processes outside the run set are never cut for "+k.kind)
 		}
 	}
+}
+
+func firstMatch(g *core.XG, pred func(*core.Node) bool) *core.Node {
+	for _, n := range g.Nodes {
+		if pred(n) {
+			return n
+		}
+	}
+	return nil
+}
+
+// loopHarmlessExits: every early exit of the loop leads to a state from which the root never returns normally.
+func (e *Env) loopHarmlessExits(g *core.XG, la core.LoopAt) bool {
+	for _, ed := range e.P.EarlyExitEdges(la.L) {
+		if tgt := g.FirstNodeOf(la.At.Ctx, ed.To); tgt != nil {
+			if g.Run(core.Scenario{Start: tgt, AtEntry: true}).NormalReturn() != nil {
+				return false
+			}
+		}
+	}
+	return true
 }
 
 // ---- R7 -------------------------------------------------------------------
@@ -762,13 +777,10 @@ func (e *Env) forwardAllOutputs(rule string) {
 	obS := r.Ob(rule, "(*Process).Run:forward-all(stream)", "when a task is started, every streaming output is sent on its out-port before the task goroutine starts")
 	nD, nS := 0, 0
 	for _, n := range g.Nodes {
-		if n.Ctx != g.Root {
-			continue
-		}
 		if _, ok := isPortSend(n); !ok || n.Kind == core.KAfter {
 			continue
 		}
-		ip := e.argSym(n, 1).String()
+		ip := e.xargSym(n, 1).String()
 		isThis := func(m *core.Node) bool { return m == n }
 		if strings.Contains(ip, "[0]") { // element of the head of the queue
 			nD++
